@@ -93,11 +93,11 @@ impl Scenario {
             // a single explorer while the other cores idle
             (false, false) => {
                 let sh = self.shards.max(4);
-                self.bound(2).deepen(5, 40_000).shards(sh)
+                self.bound(2).deepen(5, 25_000).shards(sh)
             }
             (false, true) => {
                 let sh = self.shards.max(3);
-                self.bound(3).deepen(6, 60_000).shards(sh)
+                self.bound(3).deepen(6, 40_000).shards(sh)
             }
         }
     }
